@@ -421,6 +421,14 @@ verif_commit_done:;
     // computing the norm
     // TODO make a clean constant for this
     pow_dim2_deg_resp = SQIsign2D_response_heuristic_bound - exp_diadic_val_full_resp;
+    // the verifier computes its dimension 2 chain of length pow_dim2_deg_resp with the strategy
+    // strategies[TORSION_PLUS_EVEN_POWER - pow_dim2_deg_resp + 2]: when the response degree is divisible
+    // by a too large power of two there is no such strategy, so signing fails explicitly
+    if (pow_dim2_deg_resp < 1 || TORSION_PLUS_EVEN_POWER - pow_dim2_deg_resp + 2 >=
+                                     (int)(sizeof(strategies) / sizeof(strategies[0]))) {
+        found = 0;
+        goto cleanup;
+    }
     ibz_pow(&remain, &ibz_const_two, pow_dim2_deg_resp);
     ibz_sub(&tmp, &remain, &degree_odd_resp);
     assert(ibz_cmp(&tmp, &ibz_const_zero) > 0);
@@ -710,6 +718,7 @@ verif_commit_done:;
         assert(0);
     }
 
+cleanup:
     ibz_finalize(&pow_chall);
     ibz_vec_2_finalize(&vec);
     ibz_vec_2_finalize(&vec_chall);
